@@ -212,3 +212,37 @@ Proof.
     + apply tok_ok_off. inversion Ht; assumption.
     + destruct (l_bs l) as [|[c idx] r]; [|exact Hbs]. apply Forall_rev. exact Ht.
 Qed.
+
+(* --- a successful run ends with the EOF token ------------------------------------------------------- *)
+Definition stop_ok (o : lexout) : Prop :=
+  match o with
+  | LStop l' => exists t ts, l_toks l' = t :: ts /\ (ty t = T_ERROR \/ ty t = T_EOF)
+  | _ => True
+  end.
+Lemma lex_step_stop st l : stop_ok (lex_step st l).
+Proof.
+  destruct st; cbn [lex_step];
+    repeat match goal with
+    | |- stop_ok (let '(_, _) := ?X in _) => destruct X as [? ?]
+    | |- stop_ok (match ?X with _ => _ end) => destruct X
+    | |- stop_ok (if ?X then _ else _) => destruct X
+    end;
+    try exact I; unfold l_error, l_emit; cbn [stop_ok l_toks l_ignore upd_text add_tok]; eexists; eexists; (split; [reflexivity|]); cbn [ty]; auto.
+Qed.
+Lemma lex_run_stop : forall fuel st l l', lex_run fuel st l = Ok l' ->
+  exists t ts, l_toks l' = t :: ts /\ (ty t = T_ERROR \/ ty t = T_EOF).
+Proof.
+  induction fuel as [|f IH]; intros st l l' H; [discriminate|]. cbn [lex_run] in H.
+  pose proof (lex_step_stop st l) as Hs. destruct (lex_step st l); try discriminate.
+  - eapply IH; exact H.
+  - injection H as <-. exact Hs.
+Qed.
+Theorem tokenize_ends_with_eof q toks : m_tokenize q = Ok toks -> toks <> [] /\ ty (last toks eof_token) = T_EOF.
+Proof.
+  unfold m_tokenize. destruct (lex_run (lex_fuel q) SRoot (lexer_init q)) as [l| | |] eqn:E; cbn [bind]; try discriminate.
+  destruct (lex_run_stop _ _ _ _ E) as (t & ts & Et & Hty). rewrite Et.
+  destruct (ttype_eqb (ty t) T_ERROR) eqn:Ee; [discriminate|].
+  destruct (l_bs l) as [|[c idx] r]; [|discriminate]. intros H. injection H as <-.
+  cbn [rev]. split; [destruct (rev ts); discriminate|]. rewrite last_last.
+  destruct Hty as [Hty | Hty]; [rewrite Hty in Ee; discriminate | exact Hty].
+Qed.
